@@ -23,7 +23,7 @@ variable {V : Type} [AddCommMonoid V]
 /-- **network-level export equivalence** -/
 theorem net_export_equiv (σ : Sem V) (inp : ℕ → List V) (p : Prog) (l : List ℕ) (α : ℕ → List Rat)
     (hl : computeLabels p = some l) (hws : wellShaped p = true) (hsup : supported p = true)
-    (hsem : ∀ n (hn : n < p.length), SemOK σ inp (p[n], n)) :
+    (hsem : ∀ n (hn : n < p.length), SemOK σ (aliveMasks p l α) inp (p[n], n)) :
     let ms := aliveMasks p l α
     let r := runBoth σ ms inp p.zipIdx
     ∀ n < p.length,
@@ -44,7 +44,7 @@ the PIT node -/
 theorem net_export_eq_on_frozen (σ : Sem V) (inp : ℕ → List V) (p : Prog) (l : List ℕ)
     (α : ℕ → List Rat) (hl : computeLabels p = some l) (hws : wellShaped p = true)
     (hsup : supported p = true)
-    (hsem : ∀ n (hn : n < p.length), SemOK σ inp (p[n], n)) (n : ℕ) (hn : n < p.length)
+    (hsem : ∀ n (hn : n < p.length), SemOK σ (aliveMasks p l α) inp (p[n], n)) (n : ℕ) (hn : n < p.length)
     (hall : allTrue (gm (aliveMasks p l α) n)) :
     gv (runBoth σ (aliveMasks p l α) inp p.zipIdx).2 n
       = gv (runBoth σ (aliveMasks p l α) inp p.zipIdx).1 n := by
@@ -72,7 +72,7 @@ example : (computeLabels demoExcl).isSome = true ∧ wellShaped demoExcl = true 
 reaches the output node unpruned, so no restriction is left at the output -/
 theorem net_export_output_eq (σ : Sem V) (inp : ℕ → List V) (p : Prog) (l : List ℕ) (α : ℕ → List Rat)
     (hl : computeLabels p = some l) (hws : wellShaped p = true) (hsup : supported p = true)
-    (hsem : ∀ n (hn : n < p.length), SemOK σ inp (p[n], n)) (n s : ℕ) (hn : n < p.length)
+    (hsem : ∀ n (hn : n < p.length), SemOK σ (aliveMasks p l α) inp (p[n], n)) (n s : ℕ) (hn : n < p.length)
     (hop : p[n] = .output s) :
     gv (runBoth σ (aliveMasks p l α) inp p.zipIdx).2 n
       = gv (runBoth σ (aliveMasks p l α) inp p.zipIdx).1 n := by
@@ -83,5 +83,45 @@ theorem net_export_output_eq (σ : Sem V) (inp : ℕ → List V) (p : Prog) (l :
   rw [alive_eq p l α hsb n hn, hop]
   simp only [maskStep]
   exact fixed_input_allTrue p l α hok hws n s hn (by rw [hop]; simp [Op.inputs]) (Or.inr (by rw [hop]; rfl))
+
+/-- a per-channel map placed right after a layer excluded from the search (a standalone
+BatchNorm, say) is **unconstrained**: every channel it sees is alive, so it need not preserve zero -/
+theorem map_after_excluded_layer_unconstrained (σ : Sem V) (inp : ℕ → List V) (p : Prog) (l : List ℕ)
+    (α : ℕ → List Rat) (hws : wellShaped p = true) (n s s' c : ℕ) (a : LAttr) (i : Bool)
+    (hn : n < p.length) (hs : s < p.length) (hop : p[n] = .chan s) (hops : p[s] = .fixed s' c a i) :
+    SemOK σ (aliveMasks p l α) inp (p[n], n) := by
+  have hsb := srcsBefore_of_wellShaped p hws
+  unfold SemOK
+  rw [hop]
+  intro ch hch
+  unfold gm at hch
+  rw [alive_eq p l α hsb s hs, hops] at hch
+  simp only [maskStep] at hch
+  rw [List.getD_eq_getElem?_getD] at hch
+  by_cases h : ch < c
+  · simp [List.getElem?_replicate, h] at hch
+  · simp [List.getElem?_replicate, h] at hch
+
+/-! ### the zero-preservation hypothesis cannot be dropped
+
+A per-channel map that does not preserve zero (a standalone BatchNorm on a *pruned* tensor, a
+sigmoid, `x + 1`) turns the exact zeros of the pruned channels into non-zero values that the next
+layer of the PIT network consumes, while `export` removes those channels: the statement of C01
+restricts the grammar to zero-preserving ops for this reason. -/
+
+def demoShift : Prog := [.input 1, .conv 0 2 {}, .chan 1, .lin 2 1 {}, .output 3]
+
+def shiftSem : Sem Int :=
+  { L := fun _ _ _ v => v, b := fun _ _ => 0, post := fun _ _ v => v, D := fun _ _ v => v,
+    g := fun _ _ v => v + 1, g2 := fun _ u v => u + v, sp := fun _ _ v => v }
+
+/-- witness: first layer pruned to its channel 1 (keep-alive), followed by `x ↦ x + 1` -/
+theorem non_zero_preserving_map_unsound :
+    supported demoShift = true ∧ wellShaped demoShift = true ∧
+    (computeLabels demoShift).isSome = true ∧
+    let ms := aliveMasks demoShift ((computeLabels demoShift).getD []) (fun g => if g = 1 then [0, 1] else [1])
+    let r := runBoth shiftSem ms (fun _ => [5]) demoShift.zipIdx
+    gv r.1 4 = [7] ∧ gv r.2 4 = [6] := by
+  decide +kernel
 
 end PlinioVerif.C01Net
